@@ -235,3 +235,49 @@ Theorem C06_code_literal : forall (funcs : list bytes) (raw : bool) (s : bytes),
   exists ts, cwrap funcs raw (JStr s) = Some ts /\ toks_value ts = Some (escape s) /\ wf_toks ts.
 Proof. exact cwrap_str_total. Qed.
 Print Assumptions C06_code_literal.
+
+(* ---- fields of the AST JSON that ordinary templates never set -------------------------------------------------- *)
+From PV Require Import Models.AstFields Proofs.C06AstProofs.
+
+(* the Tag arm of buildNode (bn_tag, assignment by assignment): whether the built tag is written without end tag
+   and content is decided by the void-element table alone; `selfClosing` of the AST (pug source `div/`, any of
+   absent / false / true) has no say *)
+Theorem C06_ast_selfclosing_table_only : forall (name : bytes) (self : option bool),
+  b_name (bn_tag name self) = name /\ b_self (bn_tag name self) = void_el name.
+Proof. exact bn_tag_table. Qed.
+Print Assumptions C06_ast_selfclosing_table_only.
+
+(* ALL trees as the decoder sees them, ANY flag on ANY element: what CommonTag.render writes on the built tags
+   (as document events) is what the specification says of the tree with the flags erased -- so every theorem
+   above, stated on pnode, speaks about the decoded trees *)
+Theorem C06_ast_flag_erased : forall l : list tnode, mevents bn_tag l = events (map erase l).
+Proof. exact mevents_erase. Qed.
+Print Assumptions C06_ast_flag_erased.
+
+(* ALL static decoded trees: the emitted template source consists of text and string-literal actions whose values
+   are the printing of these events, which is the HTML serialisation of the erased tree *)
+Theorem C06_ast_static : forall (funcs : list bytes) (l : list tnode),
+  forallb static (map erase l) = true -> forallb names_ok (map erase l) = true ->
+  ser_events (mevents bn_tag l) = html_ser (map erase l) /\
+  exists ts segs, compile funcs false (map erase l) = Some ts /\ segment (show_toks ts) = Some segs /\
+                  segs_value segs = Some (ser_events (mevents bn_tag l)) /\ forallb lit_seg segs = true.
+Proof. exact ast_static. Qed.
+Print Assumptions C06_ast_static.
+
+(* ... a well-formed document: an end tag for every element that is not void, none for void elements, whatever
+   the flags say *)
+Theorem C06_ast_static_wf : forall l : list tnode,
+  forallb static (map erase l) = true -> doctype_ok (map erase l) = true ->
+  wf_html (mevents bn_tag l) = true.
+Proof. exact ast_static_wf. Qed.
+Print Assumptions C06_ast_static_wf.
+
+(* the overwrite is needed: were the table only able to ADD the mark (bn_tag_guarded), a template pug accepts
+   (an empty `div/` between siblings) would render without the element's end tag -- not the serialisation, not
+   well-formed *)
+Theorem C06_ast_selfclosing_guarded_refuted : exists l : list tnode,
+  forallb sc_dom l = true /\ forallb static (map erase l) = true /\ doctype_ok (map erase l) = true /\
+  wf_html (mevents bn_tag_guarded l) = false /\
+  ser_events (mevents bn_tag_guarded l) <> html_ser (map erase l).
+Proof. exact guarded_refuted. Qed.
+Print Assumptions C06_ast_selfclosing_guarded_refuted.
